@@ -18,6 +18,7 @@ SPEC = {
         "scrypt": ("mism_scrypt", "pf_scrypt"),
         "wallet": ("mism_wallet", "pf_wallet"),
         "xpub": (None, "pf_xpub"),
+        "service": (None, "pf_service"),
     },
     "trusted_base": [
         "Model/WalletCrypt.v (hand-written): framing of Sha256Xor.Decrypt and ScryptChacha20poly1305.Decrypt, wallet Lock/Unlock/packSecrets/unpackSecrets/syncSecrets/Erase of the deterministic, bip44 and collection wallets; compared on this run with the implementation on the generated inputs",
